@@ -193,6 +193,7 @@ Inductive op :=
 | Merge (os : list dset) (sort_by : option string)
 | Difference (o : dset) (index_by : list string)
 | Del (path : string)
+| AddColl (path : string)                     (* add_collection: an empty collection holds no rows; the table is unchanged *)
 | Filter (conds : list (string * payload))    (* query, state unchanged *)
 | Unique (path : string).                     (* query, state unchanged *)
 
@@ -518,7 +519,7 @@ Definition step (q : quirks) (d : dset) (o : op) : option dset :=
              | Some _ => Some (mkD (num_obs d) (rowids d) (store d)
                                    (filter (fun pf => negb (String.eqb (fst pf) p)) (fields d)) (next d))
              | None => None end
-  | Filter _ | Unique _ => Some d
+  | AddColl _ | Filter _ | Unique _ => Some d
   end.
 
 Fixpoint run (q : quirks) (d : dset) (ops : list op) : option dset :=
